@@ -7,6 +7,8 @@ multiplicities (`PosMult`: every k ≥ 1 — with k = 0 the replicated data lose
 group, so the statement is genuinely about positive weights) and all scalings c > 0.
 -/
 import FairModel.Lemmas.Weights
+import FairModel.Lemmas.BaseMetricsSrc
+import FairModel.Lemmas.PoolWeights
 
 namespace C11
 open BaseMetrics Weights
@@ -175,6 +177,126 @@ theorem scale_invariant_named (c : Rat) (hc : 0 < c) (rows : List WRow) (me : Me
   rw [frame_scale selMetric c hc', frame_scale tprMetric c hc', frame_scale fprMetric c hc']
   exact ⟨rfl, rfl, rfl, rfl, rfl, rfl⟩
 
+/-! ### 7. Tie to the source text: the same statements for the TRANSLATED functions
+
+`Generated/BaseMetricsSrc.lean` (lifter `harness/lifters/base_metrics.py`) is the statement-by-statement
+translation of `_base_metrics.py`, including the weight handling: `sample_weight=sample_weight` passed to
+`confusion_matrix`, `s_w = np.ones(len(...))`, `if sample_weight is not None: s_w = ...`,
+`np.dot(..., s_w) / s_w.sum()`.  Through `C14.src_*_eq_model` the metamorphic relations hold for the
+translated functions exactly as fairlearn is called: weights `k` passed as `sample_weight` versus the
+rows physically replicated and `sample_weight=None`. -/
+
+section Source
+open BaseMetricsGen
+
+theorem unitW_replicate (rows : List (Row × Nat)) : unitW (replicate rows) = replicate rows := by
+  unfold unitW replicate
+  rw [List.map_flatMap]
+  apply List.flatMap_congr
+  intro p _
+  simp [List.map_replicate]
+
+theorem unitP_replicateP (rows : List (PRow × Nat)) : unitP (replicateP rows) = replicateP rows := by
+  unfold unitP replicateP
+  rw [List.map_flatMap]
+  apply List.flatMap_congr
+  intro p _
+  simp [List.map_replicate]
+
+/-- translated rates: `sample_weight=k` on the rows ≡ the replicated rows with `sample_weight=None` -/
+theorem src_weight_is_multiplicity_rate (k : Kind) (rows : List (Row × Nat)) (hk : PosMult rows)
+    (pos : Option Int) :
+    BaseMetricsGen.rate k ((weighted rows).map (·.yt)) ((weighted rows).map (·.yp))
+        (some ((weighted rows).map (·.w))) pos =
+      BaseMetricsGen.rate k ((replicate rows).map (·.yt)) ((replicate rows).map (·.yp)) none pos := by
+  rw [rate_eq_model, rate_none_eq_model, unitW_replicate]
+  exact weight_is_multiplicity_rate k rows hk pos
+
+/-- … and ≡ the replicated rows with explicit unit weights -/
+theorem src_weight_is_multiplicity_rate_ones (k : Kind) (rows : List (Row × Nat)) (hk : PosMult rows)
+    (pos : Option Int) :
+    BaseMetricsGen.rate k ((weighted rows).map (·.yt)) ((weighted rows).map (·.yp))
+        (some ((weighted rows).map (·.w))) pos =
+      BaseMetricsGen.rate k ((replicate rows).map (·.yt)) ((replicate rows).map (·.yp))
+        (some ((replicate rows).map (·.w))) pos := by
+  rw [rate_eq_model, rate_eq_model]
+  exact weight_is_multiplicity_rate k rows hk pos
+
+theorem src_weight_is_multiplicity_selection_rate (rows : List (Row × Nat)) (hk : PosMult rows) (pos : Int) :
+    BaseMetricsSrc.selection_rate ((weighted rows).map (·.yt)) ((weighted rows).map (·.yp)) pos
+        (some ((weighted rows).map (·.w))) =
+      BaseMetricsSrc.selection_rate ((replicate rows).map (·.yt)) ((replicate rows).map (·.yp)) pos none := by
+  rw [selection_rate_eq_model, selection_rate_none_eq_model, unitW_replicate]
+  exact weight_is_multiplicity_selection_rate rows hk pos
+
+theorem src_weight_is_multiplicity_mean_prediction (yt yt' : List Rat) (rows : List (PRow × Nat)) :
+    BaseMetricsSrc.mean_prediction yt ((weightedP rows).map (·.pred)) (some ((weightedP rows).map (·.w))) =
+      BaseMetricsSrc.mean_prediction yt' ((replicateP rows).map (·.pred)) none := by
+  rw [mean_prediction_eq_model, mean_prediction_none_eq_model, unitP_replicateP,
+    weight_is_multiplicity_mean_prediction]
+
+/-- translated functions: multiplying all weights by c > 0 changes nothing -/
+theorem src_scale_invariant_rate (k : Kind) (c : Rat) (hc : 0 < c) (rows : List Row) (pos : Option Int) :
+    BaseMetricsGen.rate k (rows.map (·.yt)) (rows.map (·.yp)) (some ((rows.map (·.w)).map (c * ·))) pos =
+      BaseMetricsGen.rate k (rows.map (·.yt)) (rows.map (·.yp)) (some (rows.map (·.w))) pos := by
+  have h := rate_eq_model k (scale c rows) pos
+  have e1 : (scale c rows).map (·.yt) = rows.map (·.yt) := by simp [scale, Function.comp_def]
+  have e2 : (scale c rows).map (·.yp) = rows.map (·.yp) := by simp [scale, Function.comp_def]
+  have e3 : (scale c rows).map (·.w) = (rows.map (·.w)).map (c * ·) := by simp [scale, Function.comp_def]
+  rw [e1, e2, e3] at h
+  rw [h, rate_eq_model]
+  exact scale_invariant_rate k c hc rows pos
+
+theorem src_scale_invariant_selection_rate (c : Rat) (hc : 0 < c) (rows : List Row) (pos : Int) :
+    BaseMetricsSrc.selection_rate (rows.map (·.yt)) (rows.map (·.yp)) pos (some ((rows.map (·.w)).map (c * ·))) =
+      BaseMetricsSrc.selection_rate (rows.map (·.yt)) (rows.map (·.yp)) pos (some (rows.map (·.w))) := by
+  have h := selection_rate_eq_model (scale c rows) pos
+  have e1 : (scale c rows).map (·.yt) = rows.map (·.yt) := by simp [scale, Function.comp_def]
+  have e2 : (scale c rows).map (·.yp) = rows.map (·.yp) := by simp [scale, Function.comp_def]
+  have e3 : (scale c rows).map (·.w) = (rows.map (·.w)).map (c * ·) := by simp [scale, Function.comp_def]
+  rw [e1, e2, e3] at h
+  rw [h, selection_rate_eq_model]
+  exact scale_invariant_selection_rate c hc rows pos
+
+/-- translated functions: omitting the weights is passing all ones -/
+theorem src_none_eq_ones (k : Kind) (yt yp : List Int) (pos : Option Int) :
+    BaseMetricsGen.rate k yt yp none pos = BaseMetricsGen.rate k yt yp (some (NumpySk.ones yt.length)) pos :=
+  rate_none_eq_ones k yt yp pos
+
+end Source
+
+/-! ### 8. MetricFrame with SEVERAL sample parameters on one metric (full frame model)
+
+`Model/Frame.lean` with an arbitrary payload: replicating a row replicates ALL of its per-sample
+parameters.  Any metric that treats the weight as a multiplicity on every slice (`Frame.WeightMult`)
+gives the same `by_group` (same index incl. re-indexed empty combinations, same cells) and the same
+`overall` (per control stratum) on weighted and on replicated data; any number of sensitive / control
+features. -/
+
+section Frame
+open Frame
+
+theorem metricframe_weight_is_multiplicity {α β : Type} (nanv : β) (wt : α → Nat → α) (ncf nsf : Nat)
+    (f : List α → β) (hf : WeightMult wt f) (rows : List (Row α × Nat)) (hk : ∀ p ∈ rows, 1 ≤ p.2) :
+    Frame.byGroup nanv ncf nsf f (weightedRows wt rows) = Frame.byGroup nanv ncf nsf f (replicatedRows wt rows) ∧
+    Frame.overall nanv ncf f (weightedRows wt rows) = Frame.overall nanv ncf f (replicatedRows wt rows) :=
+  ⟨applyFunctions_weight_mult nanv wt Row.key keyIgnoresDat_key _ f hf rows hk,
+   applyFunctions_weight_mult nanv wt Row.ckey keyIgnoresDat_ckey _ f hf rows hk⟩
+
+/-- instances: the weighted-mean pool metrics, and the TWO-parameter metric `a . ids`
+    (`p0` = weight-like parameter, `p1` = a second per-sample parameter that is replicated with the row) -/
+theorem metricframe_two_params_weight_is_multiplicity (m : MetricPool.Metric)
+    (hm : m = .selrate ∨ m = .meanpred ∨ m = .accuracy ∨ m = .meanerr ∨ m = .zeroOne ∨ m = .mae ∨ m = .mse ∨
+          m = .fpPar)
+    (ncf nsf : Nat) (rows : List (Row MetricPool.Dat × Nat)) (hk : ∀ p ∈ rows, 1 ≤ p.2) :
+    Frame.byGroup Cell.nan ncf nsf (MetricPool.eval m) (weightedRows MetricPool.wtDat rows) =
+      Frame.byGroup Cell.nan ncf nsf (MetricPool.eval m) (replicatedRows MetricPool.wtDat rows) ∧
+    Frame.overall Cell.nan ncf (MetricPool.eval m) (weightedRows MetricPool.wtDat rows) =
+      Frame.overall Cell.nan ncf (MetricPool.eval m) (replicatedRows MetricPool.wtDat rows) :=
+  metricframe_weight_is_multiplicity Cell.nan MetricPool.wtDat ncf nsf _ (MetricPool.eval_weight_mult m hm) rows hk
+
+end Frame
+
 /-! ### Non-vacuity: concrete inputs meeting the hypotheses, evaluated by the kernel. -/
 
 /-- the F1 regression input: y_true=[1,0,1], y_pred=[1,0,0], groups a,b,b, weights 2,1,3 -/
@@ -195,5 +317,13 @@ example : eval .meanPred (wScale (1/4) (wWeighted f1)) = .ok (1/3) := by decide 
 /-- k = 0 is genuinely excluded: the replicated data loses the row (and here the whole group) -/
 example : keys (wReplicate [(⟨0, 1, 1, 1, 0⟩, 0), (⟨1, 0, 0, 0, 0⟩, 1)]) ≠
     keys (wWeighted [(⟨0, 1, 1, 1, 0⟩, 0), (⟨1, 0, 0, 0, 0⟩, 1)]) := by decide +kernel
+
+/-- two sample parameters on one metric: `a . ids` with a = weight 2 on the first row -/
+def tp : List (Frame.Row MetricPool.Dat × Nat) :=
+  [(⟨⟨1, 1, 0, 4⟩, [], ["a"]⟩, 2), (⟨⟨0, 1, 0, 8⟩, [], ["b"]⟩, 1), (⟨⟨1, 0, 0, 16⟩, [], ["a"]⟩, 3)]
+example : Frame.byGroup Frame.Cell.nan 0 1 (MetricPool.eval .fpPar) (Frame.weightedRows MetricPool.wtDat tp) =
+    [(["a"], .scalar (.fin 56)), (["b"], .scalar (.fin 8))] := by decide +kernel
+example : Frame.byGroup Frame.Cell.nan 0 1 (MetricPool.eval .fpPar) (Frame.replicatedRows MetricPool.wtDat tp) =
+    [(["a"], .scalar (.fin 56)), (["b"], .scalar (.fin 8))] := by decide +kernel
 
 end C11
